@@ -18,7 +18,9 @@
   the empty list, lists `[T1, ..., Tn]` and lists with a tail variable `[T1, ..., Tn | $V]` of such terms, nested to any depth
   (`Canon d T t`, `Lemmas/RoundTrip.lean`): the printer writes the term as its canonical text, and the parser reads that text
   back as the term (by induction on the nesting, from the several-argument and several-element theorems of C20).
-  The round trip for the other terms (quoted atoms, floats, atoms with other characters), goals and rules is decided on every run by the
+  FACTS round-trip too — `facts_round_trip` (`Lemmas/RoundTripFact.lean`): `fn(T1, ..., Tn).` over canonical arguments is read by
+  `parse_rule` as the rule with that head and no body and printed as that text (a canonical text has no colon, so no neck).
+  The round trip for the other terms (quoted atoms, floats, atoms with other characters), goals and rules with bodies is decided on every run by the
   correspondence suite (grammar stream: text rendered by the harness' own renderer must parse
   to the denoted value, print back as the same text, and re-parse to the same value; the model's
   parser AND printer are compared with the implementation's on each of these cases).
@@ -26,6 +28,7 @@
 import SuironVerif.Model.ParseGoal
 import SuironVerif.Lemmas.ParseInt
 import SuironVerif.Lemmas.RoundTrip
+import SuironVerif.Lemmas.RoundTripFact
 namespace Suiron.C19
 open Suiron.Parse
 
@@ -101,6 +104,24 @@ theorem lists_round_trip (po : POps) (sf : UInt64 → String) (hα : ∀ c, isLe
   refine ⟨⟨parse_canon po hα (Canon.list d as ts hne hlen hargs) f, show_canon sf (Canon.list d as ts hne hlen hargs)⟩, ?_⟩
   intro name hn
   exact ⟨parse_canon po hα (Canon.tlist d as ts name hne hlen hargs hn) f, show_canon sf (Canon.tlist d as ts name hne hlen hargs hn)⟩
+
+/-- FACTS of any arity ≥ 1 over canonical arguments: `fn(T1, ..., Tn).` is read by `parse_rule` as the rule with that head and no
+    body, and the rule is printed as that text -/
+theorem facts_round_trip (po : POps) (sf : UInt64 → String) (hα : ∀ c, isLetter c = true → po.isAlpha c = true)
+    {d : Nat} {fn : Text} {as : List Text} {ts : List Term} (hf : Word fn) (hne : as ≠ []) (hlen : as.length = ts.length)
+    (hargs : ∀ (i : Nat) (h1 : i < as.length) (h2 : i < ts.length), Canon d as[i] ts[i])
+    (hfun : funPrefix (fn ++ '(' :: joinArgs as ++ [')']) = false)
+    (hsize : fn.length + (joinArgs as).length + 2 ≤ 1000) (f : Nat) :
+    let t : Term := .cplx (.cons (.atom (str fn)) (TermList.ofList ts))
+    let T : Text := fn ++ '(' :: joinArgs as ++ [')']
+    parseRule po (3 * d + 3 + f) (T ++ ['.']) = .ok ⟨t, .nil⟩ ∧
+    showRule sf ⟨t, .nil⟩ = .ok (Term.show sf t ++ ".") ∧ (Term.show sf t ++ ".").toList = T ++ ['.'] := by
+  intro t T
+  refine ⟨parseRule_fact po hα hf hne hlen hargs hfun hsize f, show_fact sf t, ?_⟩
+  have := show_canon sf (Canon.cplx d fn as ts hf hne hlen hargs hfun hsize)
+  show (Term.show sf (.cplx (.cons (.atom (str fn)) (TermList.ofList ts))) ++ ".").toList = (fn ++ '(' :: joinArgs as ++ [')']) ++ ['.']
+  rw [String.toList_append, this]
+  rfl
 
 /-- non-vacuity: `loves(Ann, friend($X, -42))` is canonical, two levels deep -/
 example : Canon 2 "loves(Ann, friend($X, -42))".toList
